@@ -275,6 +275,11 @@ TARGETED = {
     "and_chain5_return": "def f():\n    return v(1) and v(2) and v(3) and v(4) and v(5)\n",
     "or_chain4_while": "def f():\n    while v(1) or v(2) or v(3) or v(4):\n        c(5)\n        if t(6):\n            break\n    return c(7)\n",
     "and_chain4_callarg": "def f():\n    return c(9, v(1) and v(2) and v(3) and v(4))\n",
+    "and_or_or_mixed_chain": "def f():\n    return v(1) and v(2) or v(3) or v(4)\n",
+    "or_and_and_mixed_chain": "def f():\n    if (v(1) or v(2)) and v(3) and v(4):\n        return c(5)\n    return c(6)\n",
+    "call_of_or_then_and_chain": "def f():\n    y = g(v(1) or v(2)) and v(3) and v(4)\n    return c(5, y)\n",
+    "nested_left_deep": "def f():\n    if ((v(1) and v(2)) or v(3)) and v(4):\n        return c(5)\n    return c(6)\n",
+    "not_of_andor": "def f():\n    if not (v(1) and v(2)) or v(3):\n        return c(5)\n    return c(6)\n",
     "return_in_loop_else": "def f():\n    for x in it(1):\n        c(2)\n    else:\n        return c(3)\n    return c(4)\n",
     "continue_in_while_else_if": "def f():\n    while t(1):\n        if t(2):\n            continue\n        elif t(3):\n            break\n        c(4)\n    else:\n        c(5)\n    return c(6)\n",
 }
